@@ -1,72 +1,161 @@
 """Difference-bound-matrix (zone) abstract domain: conjunctions of constraints x - y <= c over a few integer
-variables plus the zero variable '0'.  Closure by Floyd-Warshall; join = pointwise max; widening drops unstable bounds."""
+variables plus the zero variable '0'.  Closure by Floyd-Warshall (incremental when one constraint is added to a closed
+matrix); join = pointwise max; widening drops unstable bounds."""
 INF = float('inf')
 
 
 class Zone:
     def __init__(self, names):
-        self.names = list(names); self.ix = {n:i for i,n in enumerate(self.names)}
+        self.names = list(names)
+        self.ix = {n: i for i, n in enumerate(self.names)}
         n = len(self.names)
-        self.m = [[0 if i==j else INF for j in range(n)] for i in range(n)]
+        self.m = [[0 if i == j else INF for j in range(n)] for i in range(n)]
         self.bot = False
+        self.closed = True
+
     def copy(self):
-        z = Zone(self.names); z.m = [r[:] for r in self.m]; z.bot = self.bot; return z
+        z = Zone.__new__(Zone)
+        z.names = self.names
+        z.ix = self.ix
+        z.m = [r[:] for r in self.m]
+        z.bot = self.bot
+        z.closed = self.closed
+        return z
+
     def close(self):
-        if self.bot: return self
-        n = len(self.names); m = self.m
+        if self.bot or self.closed:
+            return self
+        n = len(self.names)
+        m = self.m
         for k in range(n):
+            mk = m[k]
             for i in range(n):
-                mik = m[i][k]
-                if mik == INF: continue
+                mi = m[i]
+                mik = mi[k]
+                if mik == INF:
+                    continue
                 for j in range(n):
-                    v = mik + m[k][j]
-                    if v < m[i][j]: m[i][j] = v
+                    v = mik + mk[j]
+                    if v < mi[j]:
+                        mi[j] = v
         for i in range(n):
-            if m[i][i] < 0: self.bot = True
+            if m[i][i] < 0:
+                self.bot = True
+        self.closed = True
         return self
+
     def forget(self, x):
-        self.close(); i = self.ix[x]
-        for j in range(len(self.names)):
-            if j != i: self.m[i][j] = INF; self.m[j][i] = INF
-    def le(self, x, y, c):          # x - y <= c
-        if self.bot: return
-        i, j = self.ix[x], self.ix[y]
-        if c < self.m[i][j]: self.m[i][j] = c
         self.close()
+        i = self.ix[x]
+        for j in range(len(self.names)):
+            if j != i:
+                self.m[i][j] = INF
+                self.m[j][i] = INF
+        # removing a row and a column of a closed matrix leaves it closed
+
+    def le(self, x, y, c):          # x - y <= c
+        if self.bot:
+            return
+        self.close()
+        a, b = self.ix[x], self.ix[y]
+        m = self.m
+        if c >= m[a][b]:
+            return
+        if m[b][a] + c < 0:
+            self.bot = True
+            return
+        # incremental closure: every shortest path may now use the new edge a -> b once
+        n = len(self.names)
+        col_a = [m[i][a] for i in range(n)]
+        row_b = m[b]
+        for i in range(n):
+            ia = col_a[i]
+            if ia == INF:
+                continue
+            mi = m[i]
+            base = ia + c
+            for j in range(n):
+                v = base + row_b[j]
+                if v < mi[j]:
+                    mi[j] = v
+
     def assign(self, x, y, c):      # x := y + c   (y may be '0')
-        if self.bot: return
+        if self.bot:
+            return
         if x == y:
+            self.close()
             i = self.ix[x]
             for j in range(len(self.names)):
                 if j != i:
-                    self.m[i][j] += c; self.m[j][i] -= c
+                    self.m[i][j] += c
+                    self.m[j][i] -= c
         else:
-            self.forget(x); self.le(x, y, c); self.le(y, x, -c)
+            self.forget(x)
+            self.le(x, y, c)
+            self.le(y, x, -c)
+
     def entails(self, x, y, c):
-        if self.bot: return True
-        self.close(); return self.m[self.ix[x]][self.ix[y]] <= c
+        if self.bot:
+            return True
+        self.close()
+        if self.bot:
+            return True
+        return self.m[self.ix[x]][self.ix[y]] <= c
+
     def join(self, o):
-        if self.bot: return o.copy()
-        if o.bot: return self.copy()
-        a = self.copy().close(); b = o.copy().close(); z = Zone(self.names)
-        z.m = [[max(a.m[i][j], b.m[i][j]) for j in range(len(self.names))] for i in range(len(self.names))]
+        if self.bot:
+            return o.copy()
+        if o.bot:
+            return self.copy()
+        a = self.close()
+        b = o.close()
+        if a.bot:
+            return b.copy()
+        if b.bot:
+            return a.copy()
+        z = Zone.__new__(Zone)
+        z.names = self.names
+        z.ix = self.ix
+        z.bot = False
+        z.closed = True      # the pointwise maximum of two closed matrices is closed
+        z.m = [[x if x >= y else y for x, y in zip(ra, rb)] for ra, rb in zip(a.m, b.m)]
         return z
+
     def widen(self, o):             # self = old, o = new
-        if self.bot: return o.copy()
-        if o.bot: return self.copy()
-        a = self.copy().close(); b = o.copy().close(); z = Zone(self.names)
-        z.m = [[a.m[i][j] if b.m[i][j] <= a.m[i][j] else INF for j in range(len(self.names))] for i in range(len(self.names))]
+        if self.bot:
+            return o.copy()
+        if o.bot:
+            return self.copy()
+        a = self.copy().close()
+        b = o.copy().close()
+        z = Zone.__new__(Zone)
+        z.names = self.names
+        z.ix = self.ix
+        z.bot = False
+        z.closed = False
+        z.m = [[x if y <= x else INF for x, y in zip(ra, rb)] for ra, rb in zip(a.m, b.m)]
         return z
+
     def leq(self, o):
-        if self.bot: return True
-        if o.bot: return False
-        a = self.copy().close(); b = o.copy().close()
-        return all(a.m[i][j] <= b.m[i][j] for i in range(len(self.names)) for j in range(len(self.names)))
+        if self.bot:
+            return True
+        if o.bot:
+            return False
+        a = self.close()
+        if a.bot:
+            return True
+        b = o.close()
+        if b.bot:
+            return False
+        return all(x <= y for ra, rb in zip(a.m, b.m) for x, y in zip(ra, rb))
+
     def show(self):
-        if self.bot: return 'BOT'
-        self.close(); out=[]
-        for i,a in enumerate(self.names):
-            for j,b in enumerate(self.names):
-                if i!=j and self.m[i][j] != INF:
-                    out.append(f'{a}-{b}<={self.m[i][j]}' if b!='0' and a!='0' else (f'{a}<={self.m[i][j]}' if b=='0' else f'{b}>={-self.m[i][j]}'))
+        if self.bot:
+            return 'BOT'
+        self.close()
+        out = []
+        for i, a in enumerate(self.names):
+            for j, b in enumerate(self.names):
+                if i != j and self.m[i][j] != INF:
+                    out.append(f'{a}-{b}<={self.m[i][j]}' if b != '0' and a != '0' else (f'{a}<={self.m[i][j]}' if b == '0' else f'{b}>={-self.m[i][j]}'))
         return ', '.join(out)
